@@ -11,6 +11,7 @@ mod exec;
 mod expr;
 mod gen;
 mod oracle;
+mod reader;
 mod util;
 
 use std::env;
